@@ -166,26 +166,16 @@ def run(ctx):
     if g is None:
         r.undecidable(C, "changed_comment_content not found")
     else:
-        fam = p.body_family(g)
-        red = [c for f2 in fam for c in f2.calls() if c.name.endswith("CommentReducer::<'a>::new") or c.name.endswith("CommentReducer::new")]
-        ne = [c for c in g.calls() if c.declared == "std::iter::Iterator::ne" or c.declared == "std::iter::Iterator::eq"]
-        srcs = set()
-        for f2 in fam:
-            for c in f2.calls():
-                if c.name.endswith("CommentReducer::<'a>::new") or c.name.endswith("CommentReducer::new"):
-                    d = f2.derived_from(c.args[0][1][0]) if c.args and c.args[0][0] != "k" else {"args": set()}
-                    srcs |= d["args"]
-        # the reducers are created inside a helper closure applied to both arguments
-        cod = [c for c in g.calls() if any(x in p.fns for x in c.refs) or c.name.endswith("code_comment_content")]
-        ok = len(ne) == 1 and (len(red) >= 2 or len(red) >= 1)
-        both = True
-        if ne:
-            d = set()
+        reach = p.reach_from([g.id])
+        red = [c for x in reach for c in p.fns[x].calls() if "CommentReducer" in c.name and c.name.endswith("::new")]
+        ne = [c for c in g.calls() if c.declared in ("std::iter::Iterator::ne", "std::iter::Iterator::eq")]
+        both = False
+        if len(ne) == 1:
+            sides = []
             for a in ne[0].args:
-                if a[0] != "k":
-                    d |= g.derived_from(a[1][0])["args"]
-            both = {1, 2} <= d
-        ok = ok and both
+                sides.append(g.derived_from(a[1][0])["args"] if a[0] != "k" else set())
+            both = len(sides) == 2 and ((1 in sides[0] and 2 in sides[1]) or (2 in sides[0] and 1 in sides[1]))
+        ok = len(ne) == 1 and len(red) >= 1 and both
         r.instance(C, "changed_comment_content", "ok" if ok else "violation", "%s:%d" % (g.file, g.line),
                    "reducers=%d, Iterator::ne=%d, compares both arguments=%s" % (len(red), len(ne), both))
         if not ok:
